@@ -14,6 +14,7 @@ import (
 	"os"
 	"sort"
 	"strings"
+	"time"
 
 	"github.com/ohler55/slip"
 	"github.com/ohler55/slip/pkg/bag"
@@ -29,6 +30,8 @@ type c18Run struct {
 	impl  *c18Impl
 	agree int
 	total int
+	// how long a call that hands out bags is waited for before it counts as blocked
+	blockLimit time.Duration
 }
 
 func c18Avoids(c *lib.Ctx) c18Avoid {
@@ -475,7 +478,7 @@ func (v *gv) oddKind() string {
 // ---------------------------------------------------------------------------------------------
 
 func runC18(c *lib.Ctx) {
-	r := &c18Run{c: c, impl: newC18Impl()}
+	r := &c18Run{c: c, impl: newC18Impl(), blockLimit: 10 * time.Minute}
 	// lib.NewRng(seed) streams of neighbouring seeds are shifted copies of each other (state =
 	// seed*C + K, advanced by C per draw); the generator is therefore derived from a mixed output
 	// of c.Rng, which decorrelates the seeds.
@@ -491,7 +494,8 @@ func runC18(c *lib.Ctx) {
 	recov := r.sweepRecover()
 	oflisp := r.sweepOfLisp()
 	twice := r.sweepTwice()
-	nSweep := len(text) + len(native) + len(ops) + len(simple) + len(multi) + len(scan) + len(config) + len(recov) + len(oflisp) + len(twice)
+	alias := r.sweepAlias()
+	nSweep := len(text) + len(native) + len(ops) + len(simple) + len(multi) + len(scan) + len(config) + len(recov) + len(oflisp) + len(twice) + len(alias)
 	nCfgSweep := len(config)
 	for i := 0; i < c.Scale(1500, 120000); i++ {
 		config = append(config, r.randomConfigCase())
@@ -532,6 +536,9 @@ func runC18(c *lib.Ctx) {
 	for i := 0; i < c.Scale(600, 60000); i++ {
 		twice = append(twice, r.randomTwiceCase())
 	}
+	for i := 0; i < c.Scale(1200, 60000); i++ {
+		alias = append(alias, &c18Case{Family: "alias"})
+	}
 	marker := func(name string) *c18Case { return &c18Case{Family: "config", Cell: "after-" + name, Sweep: true} }
 	r.runRecover(recov[:len(recov)/2])
 	chunk(0)
@@ -554,6 +561,8 @@ func runC18(c *lib.Ctx) {
 	r.checkPristine(marker("simplify"), "after-simplify")
 	r.runOfLisp(oflisp)
 	r.runTwice(twice)
+	r.runAlias(alias)
+	r.checkPristine(marker("alias"), "after-alias")
 	r.runRecover(recov[len(recov)/2:])
 	c.Ev.Coverage["parser_healed_outside_recover_family"] = r.impl.healed
 	_ = nCfgSweep
@@ -566,7 +575,7 @@ func runC18(c *lib.Ctx) {
 	c.Ev.Coverage["traces_validated_against_impl"] = r.total
 	c.Ev.Coverage["agreements"] = r.agree
 	c.Ev.Coverage["sweep_cases"] = nSweep
-	c.Ev.Coverage["composite_cases"] = len(text) + len(native) + len(ops) + len(simple) + len(multi) + len(scan) + len(config) + len(recov) + len(oflisp) + len(twice) - nSweep
+	c.Ev.Coverage["composite_cases"] = len(text) + len(native) + len(ops) + len(simple) + len(multi) + len(scan) + len(config) + len(recov) + len(oflisp) + len(twice) + len(alias) - nSweep
 	avoided := []string{}
 	if r.g.avoid.bigInt {
 		avoided = append(avoided, "integers ojg holds as json.Number")
@@ -594,7 +603,7 @@ func runC18(c *lib.Ctx) {
 	}
 	sort.Strings(avoided)
 	c.Ev.Coverage["composite_avoids"] = avoided
-	c.Ev.Coverage["rule"] = "cases = (document, model layout, write option lists: JSON and SEN text in both directions, stream destination, bag-compare) / (document: bag-native and back) / (document, op sequence <= 6) / (Go value: Simplify(SimpleObject) and ObjectToBag(SimpleObject)) / (Lisp value into a bag) / (documents through a multi-document entry point) / (document: scan) / (history of settings, document, entry) / (bad text, entry, valid documents through every entry) / (document parsed twice and a third time through 16 entries, edit at depth 1..3); sweep = single-cause cells (one leaf kind x placement x writer mode; one op x one or two step path x small document; path shape x value kind incl. null x depth 1..3 x path form; one bad text x entry; one Lisp value x entry; one document x entry x edit depth), seed independent; non-trivial = path length >= 2 or container nesting >= 2 or two or more documents; distinct by case text"
+	c.Ev.Coverage["rule"] = "cases = (document, model layout, write option lists: JSON and SEN text in both directions, stream destination, bag-compare) / (document: bag-native and back) / (document, op sequence <= 6) / (Go value: Simplify(SimpleObject) and ObjectToBag(SimpleObject)) / (Lisp value into a bag) / (documents through a multi-document entry point) / (document: scan) / (history of settings, document, entry) / (bad text, entry, valid documents through every entry) / (document parsed twice and a third time through 16 entries, edit at depth 1..3) / (history over several bags that share trees: child bags, bags stored in bags, writes through any of them framed by reads through every enclosing bag); sweep = single-cause cells (one leaf kind x placement x writer mode; one op x one or two step path x small document; path shape x value kind incl. null x depth 1..3 x path form; one bad text x entry; one Lisp value x entry; one document x entry x edit depth), seed independent; non-trivial = path length >= 2 or container nesting >= 2 or two or more documents; distinct by case text"
 }
 
 // randomMultiCase: 1..5 documents through one of the entry points that hand out bags.
@@ -709,6 +718,8 @@ func (r *c18Run) replay() {
 		r.runOfLisp([]*c18Case{cs})
 	case "twice":
 		r.runTwice([]*c18Case{cs})
+	case "alias":
+		r.runAlias([]*c18Case{cs})
 	}
 	fmt.Printf("replay family=%s recorded signature: %s\n", cs.Family, rec.Signature)
 	for _, v := range r.c.Violations {
